@@ -854,11 +854,16 @@ class SyncInterpreter(BaseInterpreter[TContext, TEvent]):
                 )
                 # 📬 Send the `done.state.*` event for the next processing
                 #    cycle, carrying the final state's `output` as done data.
+                #    Stamped with the completed state's activation; see
+                #    BaseInterpreter._check_and_fire_on_done.
                 self.send(
-                    DoneEvent(
-                        type=done_event_type,
-                        data=self._resolve_output(final_state),
-                        src=ancestor.id,
+                    self._scope_event(
+                        ScopedDoneEvent(
+                            type=done_event_type,
+                            data=self._resolve_output(final_state),
+                            src=ancestor.id,
+                        ),
+                        ancestor.id,
                     )
                 )
                 fired = True
